@@ -146,6 +146,11 @@ func (x *Exec) callsiteAsserts(fr *Frame, st *State, c *ssa.CallCommon, site *ss
 			o.Clause = cs.Clause.Src
 			continue
 		}
+		if cs.IsNever {
+			o := x.vc.oblige("callsite."+tag, Not(st.Reach), x.posOf(fr.fn, site.Pos()), fmt.Sprintf("the function never calls %s", cs.Callee))
+			o.Clause = cs.Clause.Src
+			continue
+		}
 		o := x.vc.oblige("callsite."+tag, Implies(st.Reach, g), x.posOf(fr.fn, site.Pos()), fmt.Sprintf("at the call of %s: %s", cs.Callee, cs.Clause.Src))
 		o.Clause = cs.Clause.Src
 		// vacuity guard: the call must be reachable under the preconditions
